@@ -13,7 +13,7 @@ class ModelError(RuntimeError):
     pass
 
 
-def run_batch(lines, timeout=1800):
+def run_batch(lines, timeout=900):
     """Send request lines to the driver; return the reply lines (same length)."""
     if not lines:
         return []
@@ -40,7 +40,7 @@ def run_batch(lines, timeout=1800):
     return out
 
 
-def run_batch_parallel(lines, jobs=8, timeout=1800):
+def run_batch_parallel(lines, jobs=8, timeout=900):
     """Split a big batch over several driver processes."""
     if len(lines) < 2000 or jobs <= 1:
         return run_batch(lines, timeout)
